@@ -129,3 +129,23 @@ func (f *VFSM) AsFSM(k FSMKind) raft.FSM {
 	}
 	return f
 }
+
+type appliedJSON struct {
+	I uint64 `json:"i"`
+	T uint64 `json:"t"`
+	Y uint8  `json:"y"`
+	D []byte `json:"d"`
+}
+
+func (a Applied) MarshalJSON() ([]byte, error) {
+	return json.Marshal(appliedJSON{a.Index, a.Term, a.Type, []byte(a.Data)})
+}
+
+func (a *Applied) UnmarshalJSON(b []byte) error {
+	var x appliedJSON
+	if err := json.Unmarshal(b, &x); err != nil {
+		return err
+	}
+	*a = Applied{Index: x.I, Term: x.T, Type: x.Y, Data: string(x.D)}
+	return nil
+}
